@@ -509,6 +509,17 @@ func init() {
 		if !ok {
 			panic(&pathAbort{Kind: "split", Msg: fmt.Sprintf("%s:%d", name, n)})
 		}
+		if v >= n {
+			ex.unsupported(fmt.Sprintf("vxSplit(%q, %d) after a split of the same name with more values", name, n))
+		}
+		if ex.splitN == nil {
+			ex.splitN = map[string]int{}
+		}
+		if m, seen := ex.splitN[name]; seen && m != n {
+			// the jobs were made from the first call: a second call with another count is not explored
+			ex.unsupported(fmt.Sprintf("vxSplit(%q) called with %d and %d values in one run", name, m, n))
+		}
+		ex.splitN[name] = n
 		return ex.goInt(int64(v))
 	}
 	vxAPI["vxChoose"] = func(ex *Exec, fr *Frame, fn *ssa.Function, args []Value, site ssa.Instruction) Value {
